@@ -50,6 +50,8 @@ pub enum Event {
 struct GateSlot {
     open: bool,
     waker: Option<Waker>,
+    /// the environment releases this gate only at or after this virtual time
+    not_before: u64,
 }
 
 pub struct Env {
@@ -141,11 +143,15 @@ impl Env {
 struct Gate {
     env: Rc<Env>,
     id: Option<usize>,
+    not_before: u64,
 }
 
 impl Gate {
     fn new(env: &Rc<Env>) -> Self {
-        Gate { env: env.clone(), id: None }
+        Gate { env: env.clone(), id: None, not_before: 0 }
+    }
+    fn timed(env: &Rc<Env>, not_before: u64) -> Self {
+        Gate { env: env.clone(), id: None, not_before }
     }
     fn poll_gate(&mut self, cx: &mut Context<'_>) -> Poll<()> {
         let mut gates = self.env.gates.borrow_mut();
@@ -153,7 +159,7 @@ impl Gate {
             None => {
                 self.id = Some(gates.len());
                 self.env.pending_gates.borrow_mut().push(gates.len());
-                gates.push(GateSlot { open: false, waker: Some(cx.waker().clone()) });
+                gates.push(GateSlot { open: false, waker: Some(cx.waker().clone()), not_before: self.not_before });
                 Poll::Pending
             }
             Some(i) => {
@@ -417,6 +423,9 @@ async fn handle(env: Rc<Env>, programs: Rc<Vec<HandlerProgram>>, mut req: Reques
     let prog = programs.get(k).unwrap_or(&default_prog).clone();
     for _ in 0..prog.pend_before {
         Gate::new(&env).await;
+    }
+    if let Some(t) = prog.pend_until_ms {
+        Gate::timed(&env, t).await;
     }
     let mut payload = Some(req.take_payload());
     let mut read_err: Option<actix_http::error::PayloadError> = None;
@@ -813,8 +822,11 @@ async fn drive(sc: &Scenario, chooser: Rc<RefCell<Chooser>>) -> Exec {
         }
         {
             if !sc.env.hold_gates {
+                let gates = env.gates.borrow();
                 for &i in env.pending_gates.borrow().iter() {
-                    evs.push(Ev::Gate(i));
+                    if gates[i].not_before <= now_ms {
+                        evs.push(Ev::Gate(i));
+                    }
                 }
             }
         }
